@@ -80,6 +80,22 @@ func gen(seed int64, n int, tier string) []interface{} {
 				break
 			}
 		}
+		// fields with an initialiser that creates an object or calls a static method, written AFTER the methods: those
+		// invocations belong to no method
+		if r.Intn(4) == 0 {
+			for i := range p.Files {
+				f := &p.Files[i]
+				if !selected(*f) || f.Unit.Kind != "class" || len(f.Unit.Members) == 0 {
+					continue
+				}
+				nw := javagen.Expr{K: "new", Type: "Object", Args: []javagen.Expr{}}
+				st := javagen.Expr{K: "call", RecvKind: "static", Recv: "Collections", Callee: "emptyList", Args: []javagen.Expr{}}
+				f.Unit.Members = append(f.Unit.Members,
+					javagen.Member{Kind: "field", Name: "lateObj", Type: "Object", Mods: []string{"private"}, Init: &nw},
+					javagen.Member{Kind: "field", Name: "lateList", Type: "Object", Mods: []string{"private"}, Init: &st})
+				break
+			}
+		}
 		c := Case{Case: fmt.Sprintf("rand-%d-%d", seed, k), Files: p.Files, Layout: p.Layout, Runs: [][]int{}}
 		if k%7 == 1 {
 			c.Via = "cli"
